@@ -232,8 +232,14 @@ class Sandbox:
     """Throw-away directory tree.  spec: {relative path: content}; content is
     str/bytes (file), None (directory), ('link', target)."""
 
-    def __init__(self, spec=None, prefix="tv_"):
-        self.root = Path(tempfile.mkdtemp(prefix=prefix, dir=scratch_root()))
+    def __init__(self, spec=None, prefix="tv_", hidden_parent=False):
+        self.outer = Path(tempfile.mkdtemp(prefix=prefix, dir=scratch_root()))
+        # (optionally the tree lives below a hidden directory: where the input directory sits must not matter)
+        # the tree lives three levels below the disposable directory: a run that escapes upwards by a few '..' (a seeded
+        # defect, or a destination the model must call "outside") lands in empty scratch space that is removed afterwards,
+        # never in the shared temporary directory
+        self.root = self.outer / "o1" / (".hidden parent" if hidden_parent else "o2") / "box"
+        self.root.mkdir(parents=True, exist_ok=True)
         if spec:
             make_tree(self.root, spec)
 
@@ -241,21 +247,29 @@ class Sandbox:
         return self.root
 
     def __exit__(self, *exc):
-        shutil.rmtree(self.root, ignore_errors=True)
+        shutil.rmtree(self.outer, ignore_errors=True)
 
 
 def make_tree(root: Path, spec):
+    hard = []
     for rel, content in spec.items():
         fp = root / rel
         fp.parent.mkdir(parents=True, exist_ok=True)
         if content is None:
             fp.mkdir(exist_ok=True)
+        elif isinstance(content, (tuple, list)) and content[0] == "hard":
+            hard.append((fp, fp.parent / content[1]))       # a second name of a sibling file (made once all files exist)
         elif isinstance(content, (tuple, list)):
             os.symlink(content[1], fp)
         elif isinstance(content, bytes):
             fp.write_bytes(content)
         else:
             fp.write_text(content)
+    for fp, target in hard:
+        if target.is_file() and not target.is_symlink():
+            os.link(target, fp)
+        else:
+            fp.write_text("C:" + fp.name)
 
 
 def snapshot(root: Path, with_ino=False):
